@@ -645,3 +645,127 @@ package geometry
 //@   loop 0 invariant isBS(polyExt(poly)) && sNpts(polyExt(poly)) == len(exterior) && (forall i int :: 0 <= i && i < len(exterior) ==> sPt(polyExt(poly), i) == ptAt(exterior, i))
 //@   loop 0 invariant forall h int :: 0 <= h && h < $i ==> (polyHole(poly,h) != nil && RingInv(polyHole(poly,h)) && isBS(polyHole(poly,h)) && sNpts(polyHole(poly,h)) == len(holeAt(holes,h)))
 //@   loop 0 assert holeAt(holes, $i) == holes[$i]
+
+// ---------------------------------------------------------------- C11: Valid / Empty / Rect / Center at geometry level (any finite coordinates: order mode)
+
+//@ spec func validPt(p Point) bool { p.X >= -180 && p.X <= 180 && p.Y >= -90 && p.Y <= 90 }
+//@ spec func bsAllValid(s *baseSeries, k int) bool rec { k <= 0 || (bsAllValid(s, k-1) && validPt(ptAt(s.points, k-1))) }
+//@ spec func bsEmpty(s *baseSeries) bool { (s.closed && len(s.points) < 3) || len(s.points) < 2 }
+
+//@ func Point.Valid
+//@   props C11
+//@   arith order
+//@   ensures result == validPt(point)
+//@ func Point.Empty
+//@   props C11
+//@   arith order
+//@   ensures !result
+//@ func Point.Rect
+//@   props C11
+//@   arith order
+//@   ensures result == mkRect(point, point)
+//@ func Rect.Valid
+//@   props C11
+//@   arith order
+//@   ensures result == (validPt(rectPt(rect,0)) && validPt(rectPt(rect,1)) && validPt(rectPt(rect,2)) && validPt(rectPt(rect,3)))
+//@ func Rect.Empty
+//@   props C11
+//@   arith order
+//@   ensures !result
+//@ func Rect.Center
+//@   props C11
+//@   arith order
+//@   ensures result == mkPoint(fdiv(fadd(rect.Max.X, rect.Min.X), 2), fdiv(fadd(rect.Max.Y, rect.Min.Y), 2))
+//@ func Rect.Convex
+//@   props C18
+//@   arith order
+//@   ensures result
+//@ func Rect.Clockwise
+//@   props C18
+//@   arith order
+//@   ensures !result
+
+//@ lemma allValidWitness(s *baseSeries, j int, k int)
+//@   props C11
+//@   requires 0 <= j && j < k && !validPt(ptAt(s.points, j))
+//@   ensures !bsAllValid(s, k)
+//@   induction k
+
+//@ func baseSeries.Valid
+//@   props C11
+//@   arith order
+//@   requires series != nil
+//@   ret use allValidWitness(series, $i, len(series.points))
+//@   ensures result == bsAllValid(series, len(series.points))
+//@   loop 0 invariant bsAllValid(series, $i)
+//@ func baseSeries.Empty
+//@   props C11
+//@   arith order
+//@   ensures result == (series == nil || bsEmpty(series))
+//@ func baseSeries.Convex
+//@   props C18
+//@   arith order
+//@   requires series != nil
+//@   ensures result == series.convex
+//@ func baseSeries.Clockwise
+//@   props C18
+//@   arith order
+//@   requires series != nil
+//@   ensures result == series.clockwise
+//@ func baseSeries.Closed
+//@   props C18
+//@   arith order
+//@   requires series != nil
+//@   ensures result == series.closed
+
+//@ spec func sValid(s Series) bool { ite(isBS(s), bsAllValid(s, bsNpts(s)), validPt(rectPt(unboxRect(s),0)) && validPt(rectPt(unboxRect(s),1)) && validPt(rectPt(unboxRect(s),2)) && validPt(rectPt(unboxRect(s),3))) }
+//@ spec func sEmpty(s Series) bool { ite(isBS(s), bsEmpty(s), false) }
+//@ func Series.Valid
+//@   props C11
+//@   requires SeriesInv(self)
+//@   ensures result == sValid(self)
+//@ func Series.Empty
+//@   props C11
+//@   requires SeriesInv(self)
+//@   ensures result == sEmpty(self)
+//@ func Series.Convex
+//@   props C18
+//@   requires SeriesInv(self)
+//@   ensures result == sConvex(self)
+//@ func Series.Clockwise
+//@   props C18
+//@   requires SeriesInv(self)
+//@   ensures result == sClockwise(self)
+
+//@ func Line.Valid
+//@   props C11
+//@   arith order
+//@   requires line != nil
+//@   ensures result == bsAllValid(line.baseSeries, len(line.baseSeries.points))
+
+//@ spec func polyHolesValid(P *Poly, k int) bool rec { k <= 0 || (polyHolesValid(P, k-1) && sValid(polyHole(P, k-1))) }
+//@ lemma holesValidWitness(P *Poly, j int, k int)
+//@   props C11
+//@   requires 0 <= j && j < k && !sValid(polyHole(P, j))
+//@   ensures !polyHolesValid(P, k)
+//@   induction k
+
+//@ func Poly.Valid
+//@   props C11
+//@   ret use holesValidWitness(poly, $i, polyNHoles(poly))
+//@   requires poly != nil && PolyInv(poly) && polyExt(poly) != nil
+//@   ensures result == (sValid(polyExt(poly)) && polyHolesValid(poly, polyNHoles(poly)))
+//@   loop 0 invariant polyHolesValid(poly, $i)
+//@   loop 0 assert polyHole(poly, $i) == hole
+//@ func Poly.Empty
+//@   props C11
+//@   requires poly != nil ==> PolyInv(poly)
+//@   ensures result == (poly == nil || polyExt(poly) == nil || sEmpty(polyExt(poly)))
+//@ func Poly.Rect
+//@   props C11
+//@   requires poly != nil ==> PolyInv(poly)
+//@   ensures result == ite(poly == nil || polyExt(poly) == nil, mkRect(mkPoint(0,0), mkPoint(0,0)), sRect(polyExt(poly)))
+//@ func Poly.Clockwise
+//@   props C18
+//@   requires poly != nil ==> PolyInv(poly)
+//@   ensures result == (poly != nil && polyExt(poly) != nil && sClockwise(polyExt(poly)))
